@@ -52,6 +52,42 @@ CLAIMED = {
         technique="TLA+ model of the run loop (TLC) + TLC trace validation of real runs with reference-computed numeric atoms",
         design_ref="4/C01",
     ),
+    "C16": dict(
+        level="exploration",
+        text="Same machinery as C01 with the Lindblad stepper: SVRun.tla model of the step loop, hook traces of real noisy SVBackend runs (relaxation, dephasing, depolarizing, "
+             "combinations, random complex 2x2 effective operators; 1-5 atoms) validated by SVRunTrace.tla; atoms: the density matrix equals the exact propagation exp(dt*L_k) of the "
+             "piecewise-constant Lindblad generator (dense Liouvillian) within 10*tol per step, observables equal their reference values, and rho is Hermitian, trace one and PSD.",
+        note="Sampled, not proved. The dense Liouvillian propagator stands in for Pulser's master-equation solver (not installed); jump operators are taken from the emulator's list (C24 decides that list).",
+        technique="TLA+ model of the run loop (TLC) + TLC trace validation of real noisy runs with reference-computed numeric atoms",
+        design_ref="4/C16",
+    ),
+    "C09": dict(
+        level="exploration",
+        text="MPSRun.tla in DMRG mode (minimisation sweeps, convergence by environment, restart, raise after MaxSweeps, no fill before convergence) is model-checked; hook traces of real "
+             "DMRG runs (2-8 atoms, constant / adiabatic / Blackman drives, dt, precision, bond cap) are validated by MPSRunTrace.tla with atoms from dense diagonalisation of every "
+             "step's Hamiltonian: every local minimisation energy and every reported energy >= E0 - rounding, |E-E0| within 10*energy_tol + 2(N-1)*precision*||H|| on gapped steps, "
+             "returned state normalised and canonical around its declared centre.",
+        note="Closeness asserted only where the reference gap exceeds 100x the budget and the bond cap cannot bind; dense reference limits N <= 8.",
+        technique="TLA+ model checking of the sweep machine (TLC) + TLC trace validation of real DMRG runs with reference-computed atoms",
+        design_ref="4/C09",
+    ),
+    "C28": dict(
+        level="exploration",
+        text="ConserveTrace.tla derives the windows of constant Hamiltonian from per-step events (values actually received by the stepper / written into the MPO) and checks, over every pair "
+             "of consecutive evaluation times of real noiseless runs of both backends (up to 12-13 atoms emu-sv, 12-20 atoms emu-mps), that the state is normalised and that energy and "
+             "energy second moment are conserved inside a window, within the backend's precision budget.",
+        note="No dense reference (this property scales); budgets scale with a coefficient-sum bound on ||H||; MPS second moment carries the package-default 1e-5 compression of H@H.",
+        technique="TLC trace validation (ConserveTrace.tla) of real runs; windows decided by the specification",
+        design_ref="4/C28",
+    ),
+    "C29": dict(
+        level="exploration",
+        text="Pairs of real runs (original, transformed) on both backends for translation, rotation, reflection, constant phase offset, phase negation and abstract-repr round trip; "
+             "equality atoms on schedules, occupations, correlations, energies (budgets of C01 / C02) and bitstring distributions (two-sample chi-square, family-wise 1e-9) are decided by MetaTrace.tla.",
+        note="Phase negation is only a symmetry when all pulses share one phase (phi -> -phi is time reversal otherwise); it is checked on such sequences only. Sampled, not proved.",
+        technique="metamorphic pairs of real runs decided by a TLC trace specification (MetaTrace.tla)",
+        design_ref="4/C29",
+    ),
 }
 PENDING_REASON = "check not built yet in this round (planned in DESIGN.md section 4); not claimed until it runs"
 NOT_APPLICABLE = {}
